@@ -70,7 +70,7 @@ class State:
         self.pc: list = []            # path condition (quantifier-free facts learned on the path)
         self.facts: list = []         # assumed axioms (WF of inputs, callee postconditions, invariants)
         self.heap: dict[int, Any] = {}
-        self.ghost: dict[str, Any] = {'locks': (), 'trace': (), 'pyerr': z3.BoolVal(False), 'epoch': 0}
+        self.ghost: dict[str, Any] = {'locks': (), 'trace': (), 'pyerr': z3.BoolVal(False), 'epoch': 0, 'newrefs': ()}
         self.this: Ptr | None = None
 
     def clone(self) -> 'State':
@@ -1825,6 +1825,13 @@ class Engine:
         self.exc = []
         normal = 0
         for s, o in outs:
+            if s.ghost.get('newrefs') or any('new reference' in w for w, _ in s.ghost['trace']):
+                # raw C-API calls that return a NEW reference (PySequence_List, PyDict_Keys, ...): the reference must have
+                # been handed to an owning pybind11 object (reinterpret_steal) or released (Py_DECREF) on EVERY exit (C14/C15)
+                left = s.ghost.get('newrefs', ())
+                self.oblige(s, 'IV', 'every-new-reference-is-released-or-handed-to-an-owner-on-every-exit',
+                            z3.BoolVal(len(left) == 0), fn.get('line'),
+                            note=('still owned: ' + ', '.join(str(x) for x in left)) if left else '')
             if o is NORMAL or o[0] == 'return':
                 normal += 1
                 ret = o[1] if o is not NORMAL else None
